@@ -120,6 +120,14 @@ Definition undirected_edges (c : list Z) : list (Z * Z) :=
 Definition zget (c : list Z) (v : Z) : option Z :=
   if (0 <=? v) && (v <? zlen c) then nth_error c (Z.to_nat v) else None.
 
+(* strict indexing (no wrap-around), any element type *)
+Definition sget {A : Type} (l : list A) (v : Z) : option A :=
+  if (0 <=? v) && (v <? zlen l) then nth_error l (Z.to_nat v) else None.
+
+(* the vertices that have a parent *)
+Definition non_root_vertices (c : list Z) : list Z :=
+  filter (fun v => match zget c v with Some p => negb (p =? -1) | None => false end) (zrange 0 (length c)).
+
 Fixpoint climbs (fuel : nat) (c : list Z) (v : Z) : bool :=
   match fuel with
   | O => false
@@ -224,17 +232,22 @@ Section Morph.
   Definition to_neuroml_morphology (m : amorph) : list (option segment) :=
     map (segment_from_vertex_index m) (zrange 1 (Z.to_nat (zlen (am_vertices m) - 1))).
 
-  (* the segment the property asks for at a non-root vertex v *)
+  (* the segment the property asks for at a non-root vertex v: end points are row v and row parent(v) of the
+     vertices array, read with strict (non-wrapping) indices *)
   Definition expected_segment (m : amorph) (v : Z) : option segment :=
     match zget (am_conn m) v with
     | None => None
     | Some p =>
-      match pyget (am_vertices m) v, pyget (am_vertices m) p with
+      match sget (am_vertices m) v, sget (am_vertices m) p with
       | Some nv, Some pv => Some {| sg_id := v; sg_prox := nv; sg_dist := pv;
                                     sg_parent := if 1 <? v then Some p else None |}
       | _, _ => None
       end
     end.
+
+  (* mask all False and as long as the arrays: what the constructor builds when no mask is given *)
+  Definition no_floating (m : amorph) : bool :=
+    negb (existsb (fun b => b) (am_mask m)) && (length (am_mask m) =? length (am_vertices m))%nat.
 
   (* ---------------------------------------------------------------- the file format *)
   Inductive arr : Type :=
@@ -268,17 +281,22 @@ Section Morph.
     Variable st_children : store -> path -> list string.                (* iteration over a group *)
     Variable st_read : store -> path -> option arr.                     (* node[:] *)
 
+    (* the three create_array calls of __write_single_cell *)
+    Definition write_arrays (s0 : store) (p : path) (m : amorph) : option store :=
+      bind (st_mkarray s0 p "vertices"%string (AVerts (am_vertices m))) (fun s1 =>
+      bind (st_mkarray s1 p "connectivity"%string (AConn (am_conn m))) (fun s2 =>
+      st_mkarray s2 p "physical_mask"%string (AMask (am_mask m)))).
+
+    Definition group_name (m : amorph) : string :=
+      match am_id m with None => "Morphology"%string | Some i => i end.
+
     (* __write_single_cell *)
     Definition write_single (s : store) (m : amorph) (cell_id : option string) : option store :=
-      let name := match am_id m with None => "Morphology"%string | Some i => i end in
-      let arrays (s0 : store) (p : path) :=
-          bind (st_mkarray s0 p "vertices"%string (AVerts (am_vertices m))) (fun s1 =>
-          bind (st_mkarray s1 p "connectivity"%string (AConn (am_conn m))) (fun s2 =>
-          st_mkarray s2 p "physical_mask"%string (AMask (am_mask m)))) in
+      let name := group_name m in
       match cell_id with
-      | None => bind (st_mkgroup s [] name) (fun s1 => arrays s1 [name])
+      | None => bind (st_mkgroup s [] name) (fun s1 => write_arrays s1 [name] m)
       | Some cid => bind (st_mkgroup s [] cid) (fun s1 =>
-                    bind (st_mkgroup s1 [cid] name) (fun s2 => arrays s2 [cid; name]))
+                    bind (st_mkgroup s1 [cid] name) (fun s2 => write_arrays s2 [cid; name] m))
       end.
 
     Definition with_default_id (m : amorph) (k : nat) : amorph :=
@@ -354,10 +372,15 @@ Section Morph.
             (st_children s []))) (fun ll => Some (concat ll)).
   End Store.
 
-  (* ---------------------------------------------------------------- a concrete store (used for evaluation):
-     the log of created nodes; iteration over a group = its children's names, sorted *)
+  (* ---------------------------------------------------------------- the reference store PyTables is assumed to refine
+     (and the one the cases files evaluate): node path -> item, group path -> names of its children in creation
+     order; iteration over a group yields the names in sorted order *)
   Inductive item : Type := IGroup | IArr (a : arr).
-  Definition lstore : Type := list ((path * string) * item).    (* newest first *)
+
+  Record fstore : Type := {
+    f_item : path -> option item;
+    f_names : path -> list string
+  }.
 
   Fixpoint path_eqb (a b : path) : bool :=
     match a, b with
@@ -373,33 +396,59 @@ Section Morph.
     end.
   Definition sort_names (l : list string) : list string := fold_right insert_name [] l.
 
-  (* names created directly under p, oldest first *)
-  Definition ls_names (s : lstore) (p : path) : list string :=
-    rev (map (fun e => snd (fst e)) (filter (fun e => path_eqb (fst (fst e)) p) s)).
+  Definition f_empty : fstore := {| f_item := fun _ => None; f_names := fun _ => [] |}.
 
-  Definition ls_is_group (s : lstore) (p : path) : bool :=
+  Definition f_is_group (s : fstore) (p : path) : bool :=
     match p with
     | [] => true
-    | _ => existsb (fun e => path_eqb (fst (fst e) ++ [snd (fst e)]) p
-                             && match snd e with IGroup => true | IArr _ => false end) s
+    | _ => match f_item s p with Some IGroup => true | _ => false end
     end.
 
-  Definition ls_create (s : lstore) (p : path) (n : string) (it : item) : option lstore :=
-    if ls_is_group s p && negb (existsb (String.eqb n) (ls_names s p)) then Some (((p, n), it) :: s) else None.
+  Definition f_upd (s : fstore) (p : path) (n : string) (it : item) : fstore :=
+    {| f_item := fun q => if path_eqb q (p ++ [n]) then Some it else f_item s q;
+       f_names := fun q => if path_eqb q p then (f_names s p ++ [n])%list else f_names s q |}.
 
-  Definition ls_mkgroup (s : lstore) (p : path) (n : string) : option lstore := ls_create s p n IGroup.
-  Definition ls_mkarray (s : lstore) (p : path) (n : string) (a : arr) : option lstore := ls_create s p n (IArr a).
-  Definition ls_children (s : lstore) (p : path) : list string := sort_names (ls_names s p).
-  Definition ls_read (s : lstore) (p : path) : option arr :=
-    match find (fun e => path_eqb (fst (fst e) ++ [snd (fst e)]) p) s with
-    | Some (_, IArr a) => Some a
-    | _ => None
+  (* create_group / create_array: the parent must be a group, the name must be new (else NodeError) *)
+  Definition f_create (s : fstore) (p : path) (n : string) (it : item) : option fstore :=
+    if f_is_group s p && negb (existsb (String.eqb n) (f_names s p)) then Some (f_upd s p n it) else None.
+
+  Definition f_mkgroup (s : fstore) (p : path) (n : string) : option fstore := f_create s p n IGroup.
+  Definition f_mkarray (s : fstore) (p : path) (n : string) (a : arr) : option fstore := f_create s p n (IArr a).
+  Definition f_read (s : fstore) (p : path) : option arr :=
+    match f_item s p with Some (IArr a) => Some a | _ => None end.
+  (* iteration order as a parameter (the theorems hold for every order that is a permutation) *)
+  Definition f_children (order : list string -> list string) (s : fstore) (p : path) : list string :=
+    order (f_names s p).
+
+  Definition l_write_document := write_document fstore f_empty f_mkgroup f_mkarray.
+  Definition l_write_document_orig := write_document_orig fstore f_empty f_mkgroup f_mkarray.
+  Definition l_write_morphology := write_morphology fstore f_empty f_mkgroup f_mkarray.
+  Definition l_load := load fstore (f_children sort_names) f_read.
+
+  (* the top-level group names the writer creates for a document, in creation order *)
+  Fixpoint cell_top_names (k : nat) (cells : list (option string * amorph)) : list string :=
+    match cells with
+    | [] => []
+    | (cid, _) :: t => cell_name cid k :: cell_top_names (S k) t
+    end.
+  Fixpoint morph_top_names (k : nat) (ms : list amorph) : list string :=
+    match ms with
+    | [] => []
+    | m :: t => group_name (with_default_id m k) :: morph_top_names (S k) t
+    end.
+  Definition top_names (d : adoc) : list string :=
+    (cell_top_names 0 (d_cells d) ++ morph_top_names 0 (d_morphs d))%list.
+  (* the names of the morphology groups inside the cell groups *)
+  Fixpoint cell_morph_names (k : nat) (cells : list (option string * amorph)) : list string :=
+    match cells with
+    | [] => []
+    | (_, m) :: t => group_name (with_default_id m k) :: cell_morph_names (S k) t
     end.
 
-  Definition l_write_document := write_document lstore [] ls_mkgroup ls_mkarray.
-  Definition l_write_document_orig := write_document_orig lstore [] ls_mkgroup ls_mkarray.
-  Definition l_write_morphology := write_morphology lstore [] ls_mkgroup ls_mkarray.
-  Definition l_load := load lstore ls_children ls_read.
+  (* what a loaded morphology keeps of a written one: the three arrays (ids are not stored) *)
+  Definition strip (m : amorph) : amorph :=
+    {| am_id := None; am_vertices := am_vertices m; am_conn := am_conn m; am_mask := am_mask m |}.
+  Definition doc_morphologies (d : adoc) : list amorph := (map snd (d_cells d) ++ d_morphs d)%list.
 
   (* write then load: what test_write_expected / the property observe *)
   Inductive rt : Type :=
@@ -436,6 +485,9 @@ Arguments sg_dist {V} s.
 Arguments sg_parent {V} s.
 Arguments d_cells {V} a.
 Arguments d_morphs {V} a.
+Arguments WOk {S} s.
+Arguments WNodeError {S}.
+Arguments WUnbound {S}.
 
 (* ------------------------------------------------------------------ comparison helpers for the generated cases files
    (vertex rows with integer coordinates) *)
